@@ -57,6 +57,9 @@ def install_builtins(M):
                 n += len(p)
             elif p.kind == 'hex':
                 terms.append(2 * p.t.len)
+            elif p.kind == 'hexint' and p.extra == ('', 'x'):
+                # number of hex digits of a non-negative integer: decided per path (forks over the digit count)
+                n += it.p.concretize(M.hexdigits_term(p.t), limit=40, what='hex digit count')
             else:
                 raise Unsupported('len of structured string with %s atom' % p.kind)
         return mk_num(z3.IntVal(n) + sum(terms))
